@@ -7,10 +7,12 @@ import (
 	"testing"
 
 	"github.com/Fantom-foundation/lachesis-base/inter/idx"
+	"github.com/Fantom-foundation/lachesis-base/inter/pos"
 	"pgregory.net/rapid"
 
 	"verif/harness/internal/cons"
 	"verif/harness/internal/dagen"
+	"verif/harness/internal/graphref"
 	"verif/harness/internal/scen"
 	"verif/harness/internal/stats"
 )
@@ -48,19 +50,82 @@ func propWith(t *rapid.T, shape string) {
 	}
 	nontrivial, totalBlocks, withCheaters, stopped := 0, 0, 0, false
 	beyondThird := false
+	// the runs: every epoch of the scenario and, when epochs are switched by Reset, sometimes a second run of the
+	// same epoch after a Reset to the SAME epoch number with other weights for the same validators (corrected
+	// stakes: another canonical order of the validators, same events with the same IDs, frames as the frame rule
+	// gives them under the new weights)
+	type runT struct {
+		ref        *graphref.Ref
+		forkers    []int
+		reset      bool
+		reweighted bool
+	}
+	var runs []runT
+	reweightedRuns, reweightDiscarded := 0, 0
 	for k, plan := range sc.Epochs {
-		ref := plan.Ref
+		runs = append(runs, runT{ref: plan.Ref, forkers: plan.Info.Forkers, reset: viaReset && k > 0})
+		if viaReset && len(plan.Ref.IDs) >= 2 && rapid.IntRange(0, 2).Draw(t, "replayReweighted") == 0 {
+			ref := plan.Ref
+			// the events keep their IDs, so they keep their claimed frames: the new weights must allow them
+			ws2 := make([]pos.Weight, len(ref.IDs))
+			for i, w := range ref.Weights {
+				ws2[i] = pos.Weight(w)
+			}
+			switch rapid.IntRange(0, 2).Draw(t, "reweightKind") {
+			case 0: // two validators swap their weights
+				i := rapid.IntRange(0, len(ws2)-1).Draw(t, "swapA")
+				j := rapid.IntRange(0, len(ws2)-1).Draw(t, "swapB")
+				ws2[i], ws2[j] = ws2[j], ws2[i]
+			case 1: // all weights permuted
+				perm := rapid.Permutation(ref.Weights).Draw(t, "weightPerm")
+				for i, w := range perm {
+					ws2[i] = pos.Weight(w)
+				}
+			default:
+				for i := range ws2 {
+					ws2[i] = pos.Weight(rapid.Uint32Range(1, 9).Draw(t, "w2"))
+				}
+			}
+			ref2 := graphref.New(ref.Epoch, ref.IDs, ws2, len(ref.Evs)+8)
+			framesAllowed := true
+			for _, e := range ref.Evs {
+				others := e.Parents
+				if e.SelfParent >= 0 {
+					others = e.Parents[1:]
+				}
+				e2 := ref2.Prepare(graphref.Proto{Creator: e.Creator, SelfParent: e.SelfParent, Others: others, Salt: e.Salt})
+				if lo, hi := ref2.Allowed(e2); e.Frame < lo || e.Frame > hi {
+					framesAllowed = false
+					break
+				}
+				ref2.Commit(e2, e.Frame)
+				if e2.ID != e.ID {
+					t.Fatalf("harness: event IDs must not depend on weights")
+				}
+			}
+			if !framesAllowed {
+				reweightDiscarded++
+				continue
+			}
+			runs = append(runs, runT{ref: ref2, forkers: plan.Info.Forkers, reset: true, reweighted: true})
+		}
+	}
+	for k, run := range runs {
+		ref := run.ref
 		var fw uint64
-		for _, v := range plan.Info.Forkers {
+		for _, v := range run.forkers {
 			fw += ref.Weights[v]
 		}
 		if 3*fw >= ref.Total {
 			beyondThird = true
 		}
-		if viaReset && k > 0 {
+		if run.reset {
 			if err := in.L.Reset(idx.Epoch(ref.Epoch), ref.Validators()); err != nil {
 				t.Fatalf("Reset: %v", err)
 			}
+		}
+		if run.reweighted {
+			reweightedRuns++
 		}
 		if in.Store.GetEpoch() != idx.Epoch(ref.Epoch) {
 			break // the previous epoch did not seal on this instance (it stopped earlier)
@@ -131,6 +196,12 @@ func propWith(t *rapid.T, shape string) {
 	classes := []string{"cfg_" + cfg.Name}
 	if viaReset && len(sc.Epochs) > 1 {
 		classes = append(classes, "epoch_switched_by_reset")
+	}
+	if reweightedRuns > 0 {
+		classes = append(classes, "same_epoch_replayed_with_other_weights")
+	}
+	if reweightDiscarded > 0 {
+		classes = append(classes, "reweighting_discarded_frames_not_allowed")
 	}
 	if beyondThird {
 		classes = append(classes, "forkers_ge_third")
